@@ -89,6 +89,11 @@ func solveRace(file string, timeoutS int, only []string) solveResult {
 		n++
 		go func(sp solverSpec) {
 			st, o := runOne(ctx, sp, file, timeoutS)
+			if st == "sat" && sp.name == "z3" && strings.Contains(o, "") && recSensitive(file) {
+				// z3 4.8.12 reports `sat` on goals with recursive definitions that the newer solvers
+				// refute or cannot decide; only its `unsat` answers are used there
+				st = "unknown"
+			}
 			ch <- ans{sp.name, st, o}
 		}(sp)
 	}
@@ -261,4 +266,9 @@ func dischargeAll(obs []*Oblig, dir string, timeoutS int, workers int) {
 		}(ob)
 	}
 	wg.Wait()
+}
+
+func recSensitive(file string) bool {
+	b, err := os.ReadFile(file)
+	return err == nil && strings.Contains(string(b), "define-funs-rec")
 }
